@@ -4,7 +4,16 @@ import json, os, subprocess, sys
 
 VERIF = os.path.dirname(os.path.dirname(os.path.abspath(__file__)))
 sys.path.insert(0, VERIF)
+sys.path.insert(0, os.path.join(VERIF, ".deps"))
+import importlib  # noqa: E402
 from tools.manifest_table import CHECKS, NOT_APPLICABLE  # noqa: E402
+
+
+def subchecks(pid):
+    """the sub-checks as registered in the code, so that the text cannot fall behind the checks"""
+    mod = importlib.import_module("checks.c%s" % pid[1:])
+    return " Sub-checks registered in checks/c%s.py: " % pid[1:] + "; ".join("%s (%s)" % (s.name, s.doc) for s in mod.SUBCHECKS) + "."
+
 
 ids = [json.loads(l)["id"] for l in open(os.path.join(VERIF, "properties.jsonl"))]
 checks = []
@@ -19,7 +28,7 @@ for pid in ids:
         evidence_file="evidence/%s.json" % pid,
         replay_cmd_template="./run_check.py %s --replay {path}" % pid,
         engine="hypothesis-runner",
-        level_claimed=dict(category="exploration", text=c["text"], design_ref=c["design_ref"]),
+        level_claimed=dict(category="exploration", text=c["text"] + subchecks(pid), design_ref=c["design_ref"]),
         level_note=c["note"],
         technique=c["technique"],
     ))
